@@ -17,10 +17,13 @@ Tunables are also set to values that are a sibling class's default; every object
 dictionary, which must come out unchanged.
 Composite moves also hold near-identical members (equal in everything but one label, or - for systems of more than a
 thousand atoms - but labels away from both ends of the atom list).
+Drivers are serialized through their dictionary and by handing the object to ASE's encoder (as the restart observer
+does), with finite settings and with an infinite temperature / a chemical potential of minus infinity.
 """
 from __future__ import annotations
 
 import importlib
+import math
 import inspect
 import os
 import pkgutil
@@ -44,7 +47,7 @@ ASSUMPTIONS = [
     "excluded: callables, context, composite_move_type, unique_labels, and the attributes documented as reset after each move",
     "JSON text is produced and parsed by ase.io.jsonio (the codec the restart observer uses)",
 ]
-REQUIRED = {"composites_with_near_identical_members": 100, "composites_with_members_over_1000_atoms": 50, "rebuilt_twice_from_one_dictionary": 300, "generator_states_compared": 50, "modules_imported_first": 20, "class_roundtrips": 300, "classes_discovered": 15, "driver_roundtrips": 50, "attributes_compared": 1000}
+REQUIRED = {"driver_roundtrips_through_the_encoder": 50, "driver_roundtrips_with_infinite_settings": 50, "composites_with_near_identical_members": 100, "composites_with_members_over_1000_atoms": 50, "rebuilt_twice_from_one_dictionary": 300, "generator_states_compared": 50, "modules_imported_first": 20, "class_roundtrips": 300, "classes_discovered": 15, "driver_roundtrips": 50, "attributes_compared": 1000}
 SHARD_TIMEOUT = {"quick": 600, "thorough": 1800}
 
 EXCLUDE = {"context", "composite_move_type", "unique_labels", "check_move", "distribution", "to_displace_labels", "displaced_labels", "to_add_atoms", "to_delete_label", "exchange_atoms", "number_of_moved_particles", "strain_tensor"}
@@ -403,7 +406,7 @@ def driver_specs():
     }
 
 
-def check_driver(rec, dname, cls, first):
+def check_driver(rec, dname, cls, first, via="to_dict", nonfinite=False):
     from ase.io.jsonio import decode, encode
 
     from quansino.registry import get_class
@@ -418,15 +421,29 @@ def check_driver(rec, dname, cls, first):
         if dname == "GrandCanonical":
             mc.accessible_volume = 123.456
         mc.run(3)
+        if nonfinite:
+            # settings that are legitimately infinite: an infinite temperature accepts everything (randomising a
+            # configuration), a chemical potential of minus infinity drains the box
+            if dname == "GrandCanonical":
+                mc.chemical_potential = -math.inf
+            elif hasattr(mc, "temperature") and dname != "HamiltonianCanonical":
+                mc.temperature = math.inf
+            else:
+                return
+            rec.count("driver_roundtrips_with_infinite_settings")
     except Exception as ex:  # noqa: BLE001
         rec.viol(f"C08/driver/{dname}/run-raised/{type(ex).__name__}", f"building/running {dname} raised {ex}"[:300], {})
         return
     rec.evaluations += 1
     rec.count("driver_roundtrips")
-    rec.case(first, "driver", dname)
+    rec.case(first, "driver", dname, via, nonfinite)
     try:
         d1 = mc.to_dict()
-        text = encode(d1)
+        # the dictionary encoded by the script, or the simulation object handed to ASE's JSON encoder (which is what the
+        # restart observer and write_json do: the encoder asks the object for its dictionary itself)
+        text = encode(d1) if via == "to_dict" else encode(mc)
+        if via != "to_dict":
+            rec.count("driver_roundtrips_through_the_encoder")
         data = decode(text)
     except Exception as ex:  # noqa: BLE001
         rec.viol(f"C08/driver/{dname}/to_dict-raised/{type(ex).__name__}", f"{dname}.to_dict / encoding raised {ex}"[:300], {})
@@ -468,7 +485,7 @@ def check_driver(rec, dname, cls, first):
                 rec.viol(f"C08/driver/{dname}/lost/{k}", f"{dname}: {k} differs after the round trip", {})
         if d1.get("kwargs", {}).get("seed") != d2.get("kwargs", {}).get("seed"):
             rec.viol(f"C08/driver/{dname}/lost/seed", "seed differs after the round trip", {})
-        if encode(d2) != text:
+        if encode(d2) != encode(d1):
             rec.viol(f"C08/driver/{dname}/second-generation-differs", f"serializing the rebuilt {dname} gives a different dictionary", {"first": text[:300], "second": encode(d2)[:300]})
     except Exception as ex:  # noqa: BLE001
         rec.viol(f"C08/driver/{dname}/to_dict-raised/{type(ex).__name__}", f"rebuilt {dname}.to_dict raised {ex}"[:300], {})
@@ -530,4 +547,7 @@ def run(spec):
         rec.count(k_, v_)
     for dname, cls in sorted(drivers.items()):
         check_driver(rec, dname, cls, first)
+        check_driver(rec, dname, cls, first, via="encoder")
+        check_driver(rec, dname, cls, first, via="encoder", nonfinite=True)
+        check_driver(rec, dname, cls, first, via="to_dict", nonfinite=True)
     return rec.out()
